@@ -6,7 +6,7 @@ from pv.ref.role import roles_for
 
 CONCEPTS = ['alpha', 'beta', 'b', 'i', '"a string"', '1', 'x-01', '"a~b"', 'c', 'want-01', '"(x / y)"', 'a', '_', '0',
             '\u00e9t\u00e9', '42nd', '---', '"\\"q\\""', '"#"', 'k']
-CONSTS = ['-', '_', '_2', '5', '12345678901234567890', '"' + 'long string ' * 12 + '"', 'sym' * 20, '1.5', '"str"', '"a b(c)"', 'sym', '+', '"~1"', 'imperative', '0', '0.0', '"x : y"', '"a/b"',
+CONSTS = ['-', '_', '_2', '"C:\\dir"', '"it\\\'s \\d+"', '5', '12345678901234567890', '"' + 'long string ' * 12 + '"', 'sym' * 20, '1.5', '"str"', '"a b(c)"', 'sym', '+', '"~1"', 'imperative', '0', '0.0', '"x : y"', '"a/b"',
           '"# c"', 'http', "d'", '1,000', '^q', '"\\\\"', '-1', '1e3', 'mod', 'u\u2028w', '"t\u0085u"']
 AMR_ROLES = [':ARG0', ':ARG1', ':ARG2', ':mod', ':domain', ':op1', ':op2', ':op10', ':polarity', ':quant', ':time',
              ':location', ':part', ':name', ':consist-of', ':prep-on-behalf-of', ':poss', ':wiki', ':subset',
@@ -256,6 +256,10 @@ def any_trees(draw, max_nodes=7, canonical_alignments=False, unicode=True, depth
                 branches.append([role(), atom()])
             else:
                 branches.append([role(), None])
+        if len(branches) >= 2 and branches[0][0] == '/' and branches[0][1] is not None and chance(draw, 1, 12):
+            # the concept written as an explicit :instance relation somewhere after the first branch (legal, unusual)
+            c0 = branches.pop(0)
+            branches.insert(draw(st.integers(1, len(branches))), [':instance', c0[1]])
         return [var, branches]
 
     if depth:
